@@ -2,6 +2,7 @@ package parser
 
 import (
 	"bytes"
+	"fmt"
 	"go/ast"
 	"go/parser"
 	"go/printer"
@@ -16,6 +17,7 @@ import (
 	"github.com/reedom/convergen/pkg/logger"
 	"github.com/reedom/convergen/pkg/option"
 	"github.com/reedom/convergen/pkg/util"
+	"golang.org/x/tools/go/ast/astutil"
 	"golang.org/x/tools/go/packages"
 )
 
@@ -119,9 +121,20 @@ func NewParser(srcPath, dstPath string) (*Parser, error) {
 	}
 	sort.Strings(siblingOnly)
 	for _, path := range siblingOnly {
-		if _, taken := imports.LookupPath(pkgNames[path]); !taken {
-			imports[path] = pkgNames[path]
+		name := pkgNames[path]
+		if _, taken := imports.LookupPath(name); taken {
+			// Another import already goes by this name: import the package under an alias
+			// (the import is dropped again if the generated code does not use it).
+			for n := 2; ; n++ {
+				alias := fmt.Sprintf("%s%d", name, n)
+				if _, taken = imports.LookupPath(alias); !taken {
+					name = alias
+					break
+				}
+			}
+			astutil.AddNamedImport(fileSet, fileSrc, name, path)
 		}
+		imports[path] = name
 	}
 
 	return &Parser{
